@@ -136,6 +136,29 @@ Theorem C06_split_independent_pairwise :
 Proof. exact split_independent_pairwise. Qed.
 Print Assumptions C06_split_independent_pairwise.
 
+(* ---- records of the repaired defects F6, F7 ---- *)
+
+(* F6: the old _eat_last_hyphen (slice of two bytes compared with one hyphen)
+   rejects the final hyphen whenever a byte follows it in the same chunk. *)
+Theorem C06_F6_two_byte_slice_variant_refuted :
+  exists h chunk,
+    snd (eat_last_hyphen_F6 h chunk 0) = EErr EUnexpectedBodyEnd /\
+    snd (eat_last_hyphen h chunk 0) = EFound 1%Z.
+Proof. exact F6_variant_rejects_final_hyphen. Qed.
+Print Assumptions C06_F6_two_byte_slice_variant_refuted.
+
+(* F7 as repaired: after the closing delimiter every further chunk (the epilogue,
+   an empty read) leaves the result unchanged; a recorded error sticks. *)
+Theorem C06_chunks_after_the_end_are_ignored :
+  forall s c, stopped s = true -> feed s c = s.
+Proof. exact stopped_absorbs. Qed.
+Print Assumptions C06_chunks_after_the_end_are_ignored.
+
+Theorem C06_first_error_sticks :
+  forall s c e, error s = Some e -> feed s c = s.
+Proof. exact error_sticks. Qed.
+Print Assumptions C06_first_error_sticks.
+
 (* ---- non-vacuity: concrete well-formed bodies, cut inside the closing delimiter
    (the F6 and F7 positions), with three sections and no error ---- *)
 Example C06_nonvacuous_simple :
